@@ -489,6 +489,35 @@ def analyze(ctx, want):
     ob("C11.a", "peek_n:transitive-write-set-excludes-cursor-fields", not bad, "transitive writes of peek_n into FindMatchesImpl: %s" % bad, pk.loc())
     badm = sorted(x for x in w if x[0].endswith("ScannerImpl") and x[1] == "current_mode")
     ob("C11.a", "peek_n:transitive-write-set-excludes-current_mode", not badm, "transitive writes: %s" % badm, pk.loc())
+    # ... and nothing else that a later call reads: the only state peek_n (transitively) writes are the automaton's
+    # scratch buffers (cleared on entry of every attempt, C12.d) reached through the borrow path scanner_impl ->
+    # scanner_modes -> dfa; any other written field of the crate's own types that the scan path reads somewhere is a
+    # channel from a peek into the outcome of a later call (a memo, a counter that is consulted, a flag)
+    scratch = {("FindMatchesImpl", "scanner_impl"), ("ScannerImpl", "scanner_modes"), ("CompiledScannerMode", "dfa"),
+               ("CompiledDfa", "current_states"), ("CompiledDfa", "next_states")}
+    own = lambda a: a.startswith("internal::") or a.startswith("find_matches") or a.startswith("scanner")
+    extra = sorted(x for x in w if own(x[0]) and (x[0].split("::")[-1].split("<")[0], x[1]) not in scratch)
+    if extra:
+        roots = [f_ for f_ in (F.fn(r"FindMatchesImpl::<..>::next_match$"), pk) if f_ is not None]
+        reads = set()
+        for k_ in sorted(set(F.reachable_fns(roots)) | {r_.key for r_ in roots}):
+            f_ = F.fns[k_]
+            for bb_, i_, s_ in f_.stmts():
+                if s_["k"] == "assign":
+                    for pl_ in M.rvalue_places(s_["rv"]):
+                        reads |= set(M.place_fields(pl_))
+            for bb_ in f_.reachable():
+                t_ = f_.term(bb_)
+                for a_ in (t_.get("args") or []) if t_["k"] == "call" else []:
+                    pl_ = M.operand_place(a_)
+                    if pl_ is not None:
+                        reads |= set(M.place_fields(pl_))
+                if t_["k"] == "switch":
+                    pl_ = M.operand_place(t_.get("discr") or t_.get("op") or {})
+                    if pl_ is not None:
+                        reads |= set(M.place_fields(pl_))
+        extra = [x for x in extra if x in reads]
+    ob("C11.a", "peek_n:writes-nothing-a-later-call-reads", not extra, "fields written (transitively) by peek_n and read on the scan path, other than the scratch buffers: %s" % ["%s.%s" % (M.short_name(a), b) for a, b in extra], pk.loc())
     sample("C11.a", {"peek_n_transitive_writes": sorted("%s.%s" % (M.short_name(a), b) for a, b in w if a.startswith("internal") or a.startswith("find_matches"))})
 
     # advance_char_indices_beyond_match: consumes chars of the given cursor until the end of the match
